@@ -1,6 +1,6 @@
 (** * C12 — ORDER BY, LIMIT and OFFSET are honoured.
     Only statements, each closed by [exact], with its assumptions printed. *)
-From RL Require Import Model.Exec Proofs.ExecP.
+From RL Require Import Model.Exec Proofs.ExecP Proofs.MergeJoinP Proofs.MergeOrderP.
 From Coq Require Import Permutation Sorted.
 
 (** ORDER BY returns a permutation of its input ... *)
@@ -23,7 +23,25 @@ Theorem topn_is_slice_of_order : forall limit offset ks c,
   x_topn limit offset ks c = concat (x_limit limit offset [x_order ks c]).
 Proof. exact topn_eq_limit_order. Qed.
 
+(** which order a merge join passes on — the claim of the planner's order analysis (analyze_order), by which
+    useless-order drops an ORDER BY: the INNER merge join over inputs sorted on their keys returns its rows sorted
+    on the right key columns ... *)
+Theorem inner_merge_join_is_sorted_on_the_right_keys : forall lk cols nl nr L R,
+  (forall l, In l (concat L) -> length l = nl) ->
+  sorted_on lk (concat L) -> sorted_on (map SCol cols) (concat R) ->
+  sorted_on (rcols_keys nl cols) (x_mergejoin JInner lk (map SCol cols) nl nr L R).
+Proof. exact mergejoin_inner_sorted_on_right_keys. Qed.
+(** ... the LEFT OUTER one does not (repair 6f584fa: the analysis no longer says so): 1, NULL, 3 *)
+Theorem left_outer_merge_join_is_not_sorted_on_the_right_keys :
+  let L := [[ [DI32 1]; [DI32 2]; [DI32 3] ]] in let R := [[ [DI32 1]; [DI32 3] ]] in
+  sorted_on [SCol 0] (concat L) /\ sorted_on [SCol 0] (concat R) /\
+  x_mergejoin JLeft [SCol 0] [SCol 0] 1 1 L R = [[DI32 1; DI32 1]; [DI32 2; DNull]; [DI32 3; DI32 3]] /\
+  ~ sorted_on (rcols_keys 1 [0%nat]) (x_mergejoin JLeft [SCol 0] [SCol 0] 1 1 L R).
+Proof. exact mergejoin_left_not_sorted_on_right_keys. Qed.
+
 Print Assumptions order_is_permutation.
 Print Assumptions order_is_sorted.
 Print Assumptions limit_offset_exact.
 Print Assumptions topn_is_slice_of_order.
+Print Assumptions inner_merge_join_is_sorted_on_the_right_keys.
+Print Assumptions left_outer_merge_join_is_not_sorted_on_the_right_keys.
